@@ -421,6 +421,29 @@ static long __attribute__((noinline)) delalloc_run(long n, int k) {
   return bad;
 }
 
+/* a type whose Assign makes managed objects of its own (a deep copy): copy(x) of it runs collections in the middle of that assign,
+   and what the half-built copy already holds is reachable through it from then on */
+struct DLeaf { int64_t serial; }; struct DNode { var kids[8]; };
+static char dleaf_fin[1 << 16]; static int64_t dleaf_next = 1;
+static void DLeaf_New(var self, var args) { ((struct DLeaf*)self)->serial = dleaf_next < (1 << 16) - 1 ? dleaf_next++ : 0; }
+static void DLeaf_Del(var self) { int64_t q = ((struct DLeaf*)self)->serial; if (q > 0 && q < (1 << 16)) dleaf_fin[q]++; }
+static void DLeaf_Assign(var self, var obj) { ((struct DLeaf*)self)->serial = dleaf_next < (1 << 16) - 1 ? dleaf_next++ : 0; }
+var DLeaf = Cello(DLeaf, Instance(New, DLeaf_New, DLeaf_Del), Instance(Assign, DLeaf_Assign));
+static void DNode_Assign(var self, var obj) { for (int i = 0; i < 8; i++) ((struct DNode*)self)->kids[i] = copy(((struct DNode*)obj)->kids[i]); }
+var DNode = Cello(DNode, Instance(Assign, DNode_Assign));
+static long __attribute__((noinline)) deepcopy_run(long rounds) {
+  long bad = 0;
+  struct DNode* src = alloc(DNode);
+  for (int i = 0; i < 8; i++) src->kids[i] = new(DLeaf);
+  for (long r = 0; r < rounds; r++) {
+    struct DNode* c = copy(src);
+    for (int i = 0; i < 8; i++) { int64_t q = ((struct DLeaf*)c->kids[i])->serial; if (q <= 0 || q >= (1 << 16) || dleaf_fin[q]) bad++; }
+    if (r % 2) src = c;                                   /* (the older generation becomes garbage) */
+  }
+  for (int i = 0; i < 8; i++) { int64_t q = ((struct DLeaf*)src->kids[i])->serial; if (q <= 0 || dleaf_fin[q]) bad++; }
+  return bad;
+}
+
 static void __attribute__((noinline)) plain_nodes_build(long base, long n) { for (long i = 0; i < n; i++) { var nd = new(Node, $I(base + i)); (void)nd; } }
 
 /* a heap Tuple one of whose items is NULL (set, push and the constructor accept it): the collector meets it while marking */
@@ -470,13 +493,20 @@ static long __attribute__((noinline)) tuplefill_run(long n, int how) {
 }
 /* the Function object a Thread was made from is held by the Thread */
 static var thr_fn(var args) { return NULL; }
-static long __attribute__((noinline)) threadfunc_run(volatile var* slot) {
-  var fn = new(Function, $(Function, thr_fn));
-  uintptr_t hidden = (uintptr_t)fn ^ PMASK;
+/* (built in a frame of its own: the argument list of new is a compound literal of the calling frame and would keep fn visible) */
+/* (the callable is an object of a user type with a Call instance and the Nodes' counting finaliser: whether it is still there is
+   read from the ledger, not from mem() of an address that a later allocation may have taken over) */
+static var CallNode_Call(var self, var args) { return NULL; }
+var CallNode = Cello(Node, Instance(New, Node_New, Node_Del), Instance(Call, CallNode_Call));
+static void __attribute__((noinline)) threadfunc_build(volatile var* slot) {
+  var fn = new(CallNode, $I(1000));
+  var fn2 = new(Function, $(Function, thr_fn)); (void)fn2;
   *slot = new(Thread, fn);
-  fn = NULL;
+}
+static long __attribute__((noinline)) threadfunc_run(volatile var* slot) {
+  threadfunc_build(slot);
   scrub(); do_collect(0); do_collect(1);
-  long bad = mem(current(GC), (var)(hidden ^ PMASK)) ? 0 : 1;
+  long bad = fin_count[1000] ? 1 : 0;
   *slot = NULL;
   return bad;
 }
@@ -705,6 +735,11 @@ static int __attribute__((noinline)) real_main(int argc, char** argv) {
       HC_TRY(bad = delalloc_run(n, (int)hc_int(2)));
       long twice = 0, gone = 0; for (long i = 0; i < n; i++) { if (fin_count[1000 + i] > 1) twice++; if (fin_count[1000 + i] == 1) gone++; }
       ev_begin("bulk"); ev_int("n", n); ev_int("rooted", 0); ev_int("lost", bad + (gone != n)); ev_int("twice", twice); ev_int("stale", 0); ev_int("gone", gone);
+      ev_str("exc", hc_exc); ev_int("line", cur_line); ev_end();
+    } else if (hc_is(0, "deepcopy")) {         /* deepcopy <rounds> : copy() of an object whose Assign allocates, across threshold collections */
+      volatile long bad = 0; bulkn = 0;
+      HC_TRY(bad = deepcopy_run((long)hc_int(1)));
+      ev_begin("bulk"); ev_int("n", 1); ev_int("rooted", 1); ev_int("lost", bad); ev_int("twice", 0); ev_int("stale", 0); ev_int("gone", 0);
       ev_str("exc", hc_exc); ev_int("line", cur_line); ev_end();
     } else if (hc_is(0, "finalloc")) {         /* finalloc <n> <k> : n garbage Nodes whose finalisers allocate k objects each, in the middle of a sweep */
       long n = (long)hc_int(1); if (n > 20000) n = 20000;
